@@ -558,6 +558,47 @@ def run_nextrule_case(p):
     return None
 
 
+def run_kwonly_positional_case(p):
+    """C11 / C13: positional arguments of a @symbol dataclass whose FIELD order differs from its constructor's PARAMETER
+    order (a keyword-only field inherited from the base comes first among the fields): T(e1, e2) in a rule head binds
+    e1, e2 to the first and second constructor parameter; T(From(d), v1) constrains the first parameter"""
+    from entity_query_language import symbolic_mode, rule_mode, let, an, entity, infer, From
+    O.reset_registry()
+    rng = random.Random(p['seed'])
+    d0, d1 = O.make_domain(rng, 3), O.make_domain(rng, 3)
+    op = rng.choice(['le', 'ne', 'gt', 'eq'])
+    try:
+        if rng.random() < 0.6:
+            form = rng.choice(['a_b', 'a_kwb', 'a_b_kwsource'])
+            with rule_mode():
+                x = let(type_=O.Item, domain=d0)
+                y = let(type_=O.Item, domain=d1)
+                head = {'a_b': lambda: O.BuiltKw(x, y.name), 'a_kwb': lambda: O.BuiltKw(x, b=y.name),
+                        'a_b_kwsource': lambda: O.BuiltKw(x, y.name, source='given')}[form]()
+                q = infer(entity(head, O.OPS[op](x.size, y.size)))
+            got = sorted((d0.index(g.a), g.b, g.source) for g in q.evaluate() if isinstance(g.a, O.Item) and isinstance(g.b, (str, type(None))))
+            n_got = len(list(q.evaluate()))
+            want = sorted((i, b.name, 'given' if form == 'a_b_kwsource' else 'src') for i, a in enumerate(d0) for b in d1 if O.OPS[op](a.size, b.size))
+            if got != want or n_got != len(want):
+                return {'form': 'head:' + form, 'got': got, 'instances': n_got, 'want': want, 'signature_kind': 'head-fields'}
+        else:
+            objs = [O.BuiltKw(rng.choice(['p', 'q']), rng.choice([1, 2]), source=rng.choice(['src', 'other'])) for _ in range(5)]
+            v = rng.choice(['p', 'q'])
+            form = rng.choice(['pos_a', 'pos_a_b', 'pos_a_kwsource'])
+            with symbolic_mode():
+                t = {'pos_a': lambda: O.BuiltKw(From(objs), v), 'pos_a_b': lambda: O.BuiltKw(From(objs), v, 1),
+                     'pos_a_kwsource': lambda: O.BuiltKw(From(objs), v, source='other')}[form]()
+                q = an(entity(t))
+            got = [objs.index(r) for r in q.evaluate()]
+            want = [i for i, o in enumerate(objs) if o.a == v and (form != 'pos_a_b' or o.b == 1) and (form != 'pos_a_kwsource' or o.source == 'other')]
+            if got != want:
+                return {'form': 'term:' + form, 'value': v, 'objects': repr([(o.a, o.b, o.source) for o in objs]), 'got': got, 'want': want,
+                        'signature_kind': 'term-fields'}
+    except Exception as e:  # noqa
+        return {'exception': repr(e), 'trace': traceback.format_exc(limit=4), 'signature_kind': 'exception'}
+    return None
+
+
 def run_predform_shared_case(p):
     """C13: ONE From(d) object handed to two terms of different types: each term ranges over the members of d that are
     instances of ITS type; the From object (the caller's) still holds d afterwards"""
@@ -1405,6 +1446,8 @@ def _run_case(p):
         return run_subquery_operand_case(p)
     if p.get('kind') == 'nextrule':
         return run_nextrule_case(p)
+    if p.get('kind') == 'kwonly_positional':
+        return run_kwonly_positional_case(p)
     if p.get('kind') == 'predform_shared':
         return run_predform_shared_case(p)
     if p.get('kind') == 'empty_unselected':
@@ -1917,7 +1960,11 @@ def run_rewrite_case(p):
     """C18: meaning-preserving rewrites leave the result set unchanged"""
     from entity_query_language import symbolic_mode, let, an, entity, set_of, and_, or_, contains, in_
     rng = random.Random(p['seed'])
-    which = rng.choice(['swap_and', 'swap_or', 'assoc', 'entity_args', 'mirror', 'contains_in', 'decl_order', 'permute'])
+    which = rng.choice(['swap_and', 'swap_or', 'assoc', 'entity_args', 'mirror', 'contains_in', 'decl_order', 'permute', 'mirror_neg',
+                        'mirror_neg'])
+    m_op = rng.choice(['lt', 'gt', 'le', 'ge'])
+    m_mirror = {'lt': 'gt', 'gt': 'lt', 'le': 'ge', 'ge': 'le'}[m_op]
+    m_shape = rng.choice(['not', 'not_and', 'not_or'])
 
     def results(variant):
         O.reset_registry()
@@ -1949,6 +1996,11 @@ def run_rewrite_case(p):
             elif which == 'mirror':
                 cond = (lit < x.size) if variant else (x.size > lit)
                 cond = and_(cond, A())
+            elif which == 'mirror_neg':
+                # a mirrored comparison under a negation (also a negated conjunction / disjunction that contains it)
+                from entity_query_language import not_
+                leaf = O.OPS[m_mirror](y.size, x.size) if variant else O.OPS[m_op](x.size, y.size)
+                cond = not_(leaf) if m_shape == 'not' else (not_(and_(leaf, A())) if m_shape == 'not_and' else not_(or_(leaf, A())))
             elif which == 'contains_in':
                 cond = contains(x.tags, y.size) if variant else in_(y.size, x.tags)
             else:
